@@ -642,6 +642,8 @@ fn account_tags(log: &[Rec]) -> Vec<String> {
 struct RunResult {
     sinks: Vec<Sink>,
     summaries: Vec<String>,
+    /// `BacktestSummary::id` of each returned summary, in the order returned
+    ids: Vec<String>,
 }
 
 fn run_concurrent(s: &Setup, bs: &[usize], workers: usize) -> RunResult {
@@ -668,6 +670,7 @@ fn run_concurrent(s: &Setup, bs: &[usize], workers: usize) -> RunResult {
     RunResult {
         sinks: sinks.iter().map(|s| s.lock().unwrap().clone()).collect(),
         summaries: multi.iter().map(summary_text).collect(),
+        ids: multi.iter().map(|m| m.id.to_string()).collect(),
     }
 }
 
@@ -750,6 +753,30 @@ fn run() {
                     let s = setup.as_mut().expect("data first");
                     s.plans.push(parse_plan(&op[1..]));
                     lines.push(format!("strat {}", s.plans.len() - 1));
+                }
+                // a large parameter sweep: `n` backtests through one `run_backtests` call; observed in
+                // aggregate (one summary per request, in request order; every engine saw the whole dataset)
+                "sweep" => {
+                    let s = setup.as_ref().expect("data first");
+                    assert!(!s.plans.is_empty(), "strat first");
+                    let n: usize = op[1].parse().unwrap();
+                    let w: usize = op[2].parse().unwrap();
+                    let bs: Vec<usize> = (0..n).collect();
+                    let conc = run_concurrent(s, &bs, w);
+                    lines.push(format!("sweep_n {}", conc.summaries.len()));
+                    let in_order = conc.ids.len() == n && conc.ids.iter().enumerate().all(|(b, id)| *id == format!("b{b}"));
+                    lines.push(format!("sweep_ids {}", in_order as u8));
+                    let whole: Vec<String> = s
+                        .events
+                        .iter()
+                        .enumerate()
+                        .map(|(pos, e)| match e {
+                            MarketStreamEvent::Item(_) => pos.to_string(),
+                            MarketStreamEvent::Reconnecting(_) => "R".to_string(),
+                        })
+                        .collect();
+                    let all_seen = conc.sinks.iter().all(|k| market_ids(&k.log) == whole);
+                    lines.push(format!("sweep_seen {}", all_seen as u8));
                 }
                 "run" => {
                     let s = setup.as_ref().expect("data first");
@@ -896,6 +923,16 @@ fn generate(seed: u64, n_cases: usize, tier: &str) {
     } else {
         &[(1, 0), (1, 1), (2, 1), (2, 4), (8, 1), (8, 4), (8, 8), (2, 0)]
     };
+    if thorough {
+        // sweeps beyond 2^16 requests, on a multi-thread and on a current-thread runtime
+        for (name, n, w) in [("sweep_70000_mt", 70_000usize, 8usize), ("sweep_66000_ct", 66_000, 0)] {
+            out.case(name.to_string());
+            out.line("data 2 0:50 1:70 R 0:51 1:71");
+            out.line("strat -");
+            out.line("strat 1:0:B:1 3:1:S:1");
+            out.line(format!("sweep {n} {w}"));
+        }
+    }
     for c in 0..n_cases {
         if c % 4 == 3 {
             // a paced data source (own BacktestMarketData, tokio-time gaps, paused runtime): 3-12 Items
